@@ -66,7 +66,7 @@ Inductive prefkind := PFile | PFileSource | PK8s
 
 Inductive content :=
 | CRaw (id : N)                                  (* bytes of source file #id *)
-| CKust (k : kust)                               (* yaml.Marshal of a localized kustomization *)
+| CKust (id : N) (k : kust)                      (* yaml.Marshal of kustomization file #id with its path fields replaced *)
 | CPlug (id : N) (paths : list string).          (* AsYaml of plugin file #id with its paths replaced *)
 
 Record oracles := mkOrc {
@@ -653,9 +653,12 @@ Section Localizer.
         dop found <- load_kust_file lc kust_names [] ;
         match found with
         | [(kname, c)] =>
-            match (match c with CRaw id => o_kust orc id | _ => None end) with
+            match (match c with
+                   | CRaw id => match o_kust orc id with Some k => Some (id, k) | None => None end
+                   | _ => None
+                   end) with
             | None => Throw XErr
-            | Some k =>
+            | Some (id, k) =>
                 (* localizeNativeFields *)
                 dop oa <- match k_openapi k with
                       | Some p => dop lp <- loc_file lc p ; Ret (Some lp)
@@ -699,7 +702,7 @@ Section Localizer.
                             (field_result 0 (k_generators k) pdone)
                             (field_result 1 (k_transformers k) pdone)
                             (field_result 2 (k_validators k) pdone) in
-                op_unit (EWriteFile (show_abs (join_abs (lc_dst lc) kname)) (CKust k'))
+                op_unit (EWriteFile (show_abs (join_abs (lc_dst lc) kname)) (CKust id k'))
             end
         | _ => Throw XErr                      (* none, or more than one kustomization file *)
         end
